@@ -38,7 +38,7 @@ def tasks(tier, seed):
     n = 1600 if tier == "quick" else 48000
     shards = 48 if tier == "quick" else 192
     t = [(MOD, "hyp", (n // shards, seed * 1_000_003 + i, tier)) for i in range(shards)]
-    for name, nsh in (("py-pairs", 16), ("str-triples", 16), ("extra-triples", 8), ("mixed-py-triples", 8), ("wide-with-neutral", 16), ("str-group-pairs", 8), ("consensus-py", 16), ("shared-child-unions", 16), ("factored-pairs", 4), ("factored-triples", 8)):
+    for name, nsh in (("py-pairs", 16), ("str-triples", 16), ("extra-triples", 8), ("mixed-py-triples", 8), ("wide-with-neutral", 16), ("str-group-pairs", 8), ("consensus-py", 16), ("shared-child-unions", 16), ("factored-pairs", 4), ("factored-triples", 8), ("post-bound-pairs", 16)):
         for sh in range(nsh):
             t.append((MOD, "tables", (name, tier, sh, nsh)))
     return t
